@@ -34,6 +34,14 @@ def run(prog, chk):
     chk.rule('R18.4', 'semantic analysis runs once, before the shot loop')
     chk.rule('R18.5', 'evaluator and runtime class records have no static data members')
     evname = R.ev['name']
+    # a function-local static initialised from an argument or a local keeps the first call's value for the whole process — across the
+    # evaluators of all later shots
+    from ..kernels import frozen_static_locals
+    for f_ in prog.functions:
+        if f_.body and '/third_party/' not in f_.file and f_.file.startswith(prog.repo) and ('/runtime/' in f_.file or '/cli/' in f_.file or '/compiler/' in f_.file):
+            for v_, dep in frozen_static_locals(f_):
+                chk.ob('R18.2', f_, v_.get('ln', f_.ln), False, 'static local `%s` of %s is initialised from %s: the first call\'s value is kept for every later call and shot'
+                       % (v_['name'], f_.short, dep), key='frozen-static:%s:%s' % (f_.short, v_['name']))
     # ---- R18.1 -----------------------------------------------------------------------------
     cli = [f for f in prog.functions if f.file.endswith('cli.cpp') and f.body]
     sites = []
